@@ -23,7 +23,15 @@ package sweeper
 //@   after_call header.TimestampFromTime#0 ghost loc_cutoff := uint64(ret0)
 //@   after_call time.Now#1 ghost loc_nowNano := uint64(ret0.UnixNano())
 //@   at_call lmdb.(*Env).View#0 assert cutoff_is_the_whole_retention_before_now: int64(s.conf.RetentionDuration()) >= 0 ==> ghost_loc_cutoff == ite(ghost_loc_nowNano >= uint64(s.conf.RetentionDuration()), ghost_loc_nowNano - uint64(s.conf.RetentionDuration()), 0)
+//@   assumes listing_flag_starts_at_zero: ghost_loc_listed == 0
+//@   at_call lmdb.(*Env).Update#0 assert sweeps_the_dbis_listed_in_this_pass: ghost_loc_listed == 1 && arrayOf(dbiNames) == ghost_loc_namesArr && uint64(len(dbiNames)) == ghost_loc_namesLen
 //@   at_call lmdb.(*Env).Update#0 assert private_only: s.schemaTracksChanges || hasPrefix(dbiName, "_sync")
+
+// The DBI names are read afresh in every pass (DBIs are created over time).
+//@ func (s *Sweeper) sweep$1
+//@   after_call lmdbenv.ReadDBINames#0 ghost loc_listed := ite(ret1 == nil, 1, 0)
+//@   after_call lmdbenv.ReadDBINames#0 ghost loc_namesArr := arrayOf(ret0)
+//@   after_call lmdbenv.ReadDBINames#0 ghost loc_namesLen := len(ret0)
 
 //@ func (s *Sweeper) sweep$2
 //@   noswallow
